@@ -13,6 +13,7 @@ import MW.Lemmas.ImportJoinMain
 import MW.Lemmas.ImportExt
 import MW.Lemmas.ImportJoinExt
 import MW.Lemmas.ImportReorgS
+import MW.Lemmas.ImportJoinReorg2
 import MW.Lemmas.LedgerD2Ex
 namespace MW.Props.C07
 open MW MW.Model.Ledger MW.Model.Import MW.Lemmas.ImportPlan
@@ -842,6 +843,52 @@ theorem import_exact_reorg_partial (batch : Nat) (hb : batch > 0) (p : Params) (
     cases hk'
   · exact ⟨hI, h2, hU⟩
 
+open MW.Lemmas.ImportExact MW.Lemmas.ImportReorg MW.Lemmas.ImportJoin MW.Lemmas.Ledger in
+/-- **import_exact_reorg_joined** (stage 2 of `import_exact_full` COMPLETE for the event model "the node moves and the
+    follower is notified of the new tip at once": batches, tip extensions and REORGANISATIONS above / at / below the
+    cursor, OTHER WALLETS IN THE INSTANCE followed live).  At the import moment the other keystores' wallets are ready
+    with their books in the store (`Inv` for the table without `w`), `w` has cursor 0 and balance 0, the follower is at
+    the tip of the node's (hash-linked, valid) chain.  Then for EVERY history of rescan batches (any positive size)
+    and notifications (`AllGoodR`: each new best chain is hash-linked, valid, has the same genesis block, block ids
+    determine blocks, the node keeps the files of orphaned blocks) the invariant `RInvJ` holds: the follower's tip is
+    the node's tip and either `w` is importing and the store is the join "other wallets: the node's whole chain" ⊕
+    "`w`: the node's chain up to its cursor", or `w` is ready and C01's `Inv` holds for the full keystore table.
+    Disconnecting a block ABOVE the cursor: Rollback — which looks owners up in ALL keystores — meets a record written
+    for the ready wallets only; inputs that spent a coin of `w` have no debit and outputs paying `w` no credit, they
+    are skipped (`rollback_tipJ`, C01's per-step lemmas on the joined book).  AT the cursor (reached when the tip has
+    come down to it) the joined store IS the books of the full table: C01's rollback (`rollback_tipR`), and `pullBack`
+    moves the cursor to the new tip — so a reorganisation BELOW the cursor undoes both halves.  Connecting: the live
+    follower books the ready wallets only (`connect_scanJS`). -/
+theorem import_exact_reorg_joined (batch : Nat) (hb : batch > 0) (p : Params) (own : Own) (wallets : List Wid)
+    (w : Wid) (hKN : KeysNodup own) (hw : w ∈ wallets) (sys0 : XSys) (evs : List REv)
+    (hI : Inv { p := p, own := own.filter (fun e => e.2.1 ≠ w), wallets := wallets, node := sys0.node } sys0.s sys0.node.chain)
+    (hAR : AllReady (own.filter (fun e => e.2.1 ≠ w)) (readyWallets sys0.s wallets))
+    (hne : (readyWallets sys0.s wallets).isEmpty = false)
+    (hG : ∃ G, sys0.node.chain[0]? = some G ∧ G.txs = [])
+    (hst : AMap.get sys0.s.status w = some ⟨some 0, false⟩) (hbal : AMap.get sys0.s.balance w = some 0)
+    (hv : sys0.v.best = tipMeta sys0.node.chain) (hg : GoodChain sys0.node.chain)
+    (hval : ChainValid own sys0.node.chain) (hnb : sys0.node.chain.length + batch < 2 ^ 64)
+    (hgood : AllGoodR batch p own wallets w sys0 evs) :
+    RInvJ batch p own wallets w (evs.foldl (stepR batch p own wallets w) sys0) ∧
+    (AMap.get (evs.foldl (stepR batch p own wallets w) sys0).s.status w = some ⟨none, false⟩ →
+      Inv { p := p, own := own, wallets := wallets, node := (evs.foldl (stepR batch p own wallets w) sys0).node }
+          (evs.foldl (stepR batch p own wallets w) sys0).s (evs.foldl (stepR batch p own wallets w) sys0).node.chain ∧
+        (evs.foldl (stepR batch p own wallets w) sys0).v.best =
+          tipMeta (evs.foldl (stepR batch p own wallets w) sys0).node.chain) := by
+  obtain ⟨G, hG0, hGt⟩ := hG
+  have hC0 : ChainOK { p := p, own := own, wallets := wallets, node := sys0.node } := ⟨hval, hg.heights⟩
+  have hS := scanJ_fresh (c := { p := p, own := own, wallets := wallets, node := sys0.node }) (w := w) hKN hC0 hI hG0 hGt hbal
+  have hX := foldRJ_inv hb hKN hw evs sys0 hgood
+    ⟨Or.inl ⟨⟨some 0, false⟩, 0, hst, rfl, rfl, by have := hg.length_pos; omega, scanJS_of_scanJ hS, hAR, hne⟩, hv, hg, hval, hnb⟩
+  refine ⟨hX, ?_⟩
+  intro hdone
+  obtain ⟨h1, h2, _⟩ := hX
+  rcases h1 with ⟨ws, k, hst', hk', _⟩ | ⟨_, hI', _⟩
+  · rw [hdone] at hst'
+    cases hst'
+    cases hk'
+  · exact ⟨hI', h2⟩
+
 open MW.Lemmas.ImportExact MW.Lemmas.ImportReorg in
 /-- a notification event of `stepR` is the node movement `Ev.node N` followed by the notification `Ev.block b` of
     `import_exact_full`'s semantics -/
@@ -883,12 +930,8 @@ theorem stepX_is_stepEv (batch : Nat) (p : Params) (own : Own) (wallets : List W
     `import_exact_static_full` (no event but batches, other wallets present), `import_exact_extensions_partial`
     (extensions, single keystore) and `import_exact_extensions_joined` (batches interleaved with tip extensions,
     other ready wallets present, node and follower moving together) and `import_exact_reorg_partial` (batches
-    interleaved with extensions AND reorganisations above / at / below the cursor, single keystore).  Missing: (a)
-    REORGANISATIONS WITH OTHER WALLETS PRESENT: `rollback` on a joined store (it looks addresses up in ALL keystores
-    and undoes both halves) — at the cursor the joined store IS the books of the full table and `rollback_tipR`
-    applies; ABOVE the cursor the block was booked for the ready wallets only and C01's `rollbackTx_refines` needs
-    hit-or-skip variants of its input / output loops (an input may spend a coin of `w` the follower ignored, an
-    output may pay `w` without a credit), cf. `spendFoldJ`; (b) node movements that are not followed at once by their notification (a
+    interleaved with extensions AND reorganisations above / at / below the cursor, single keystore) and
+    `import_exact_reorg_joined` (the same with other ready wallets followed live).  Missing: (b) node movements that are not followed at once by their notification (a
     batch then meets the followed-chain check: `batchHead_ok`); (c) histories with unconfirmed transactions
     (`recvTx`): the theorems above hold for ANY content of the pending buckets but the events are mined-side only. -/
 def import_exact_moving_full : Prop :=
@@ -1285,5 +1328,105 @@ example : Inv { p := d2Ctx.p, own := d2Own, wallets := ["W1"],
 example : (let r := Ex5.evs.foldl (Lemmas.ImportReorg.stepR 1 Lemmas.Ledger.d2Ctx.p Lemmas.Ledger.d2Own ["W1"] "W1") Ex5.sys0
            (r.v.best, useWallet r.s ["W1"] "W1", walletBalance r.s "W1" 1, (AMap.get r.s.blocks 2).map (·.2))) =
     (⟨3, "B3a"⟩, .ok, some ⟨0, 0, 0, 0⟩, some ["T1"]) := by rfl
+
+-- stage 2 with a reorganisation AND another wallet: W2 (owner of X1, which receives every coinbase and T1's change) is
+-- followed live over S = G–B1–B2 while W1 (owner of A1) is rescanned with batch size 1; after the first batch the node
+-- switches to N = G–B1–B2a–B3a: the follower rolls back B2 (a record of W2, above W1's cursor), connects B2a, B3a for
+-- W2; three more batches finish W1's rescan on N.
+namespace Ex6
+open MW.Lemmas.Ledger
+def own6 : Own := [("A1", ("W1", false)), ("X1", ("W2", false))]
+def ctxR6 : Ctx := ⟨d2Ctx.p, [("X1", ("W2", false))], ["W2"], { chain := d2S, known := d2Known }⟩
+def stR6 : Store := { sync := [(2, "B2"), (1, "B1"), (0, "G")], syncedTo := 2,
+                      status := [("W2", ⟨some 0, false⟩)], balance := [("W2", 0)], addrs := [(("W2", false, "X1"), 0)] }
+def vol6 : Vol := { best := ⟨2, "B2"⟩ }
+theorem hrun : (runBatches 1000 ctxR6 "W2" 1 stR6 vol6).isSome = true := by decide
+def sR : Store := ((runBatches 1000 ctxR6 "W2" 1 stR6 vol6).get hrun).1
+def sys0 : Lemmas.ImportExact.XSys := ⟨{ chain := d2S, known := d2Known }, addW1 sR, vol6⟩
+def evs : List Lemmas.ImportReorg.REv := [.batch, .notify d2N d2B3a, .batch, .batch, .batch]
+end Ex6
+
+open MW.Lemmas.ImportExact MW.Lemmas.Ledger in
+theorem ex6_invR :
+    Inv { p := d2Ctx.p, own := Ex6.own6.filter (fun e => e.2.1 ≠ "W1"), wallets := ["W1", "W2"], node := Ex6.sys0.node }
+        (addW1 Ex6.sR) d2S ∧
+      (readyWallets (addW1 Ex6.sR) ["W1", "W2"]) = ["W2"] := by
+  have hAR : AllReady Ex6.ctxR6.own ["W2"] := by
+    intro a w' ch h
+    rw [show Ex6.ctxR6.own = [("X1", ("W2", false))] from rfl, AMap.get_cons] at h
+    split at h
+    · cases h; rfl
+    · cases h
+  have hCR : ChainOK Ex6.ctxR6 := ⟨by decide, d2GoodS.heights⟩
+  have hSc : Scan Ex6.ctxR6 "W2" Ex6.stR6 0 := by
+    refine scan_fresh (G := d2G) rfl rfl rfl rfl rfl rfl rfl rfl rfl ?_ rfl
+    intro h
+    match h with
+    | 0 => rfl
+    | 1 => rfl
+    | 2 => rfl
+    | (n + 3) => simp [Ex6.stR6, Ex6.ctxR6, d2S, AMap.get, Spec.Books.syncOf]
+  have h : runBatches 1000 Ex6.ctxR6 "W2" 1 Ex6.stR6 Ex6.vol6 =
+      some (Ex6.sR, ((runBatches 1000 Ex6.ctxR6 "W2" 1 Ex6.stR6 Ex6.vol6).get Ex6.hrun).2.1,
+        ((runBatches 1000 Ex6.ctxR6 "W2" 1 Ex6.stR6 Ex6.vol6).get Ex6.hrun).2.2) :=
+    (Option.some_get Ex6.hrun).symm
+  obtain ⟨hI, hst, _, _⟩ := import_exact_static_partial 1000 (by decide) Ex6.ctxR6 "W2" hAR hCR rfl 1 Ex6.stR6 Ex6.vol6
+    Ex6.sR _ _ ⟨some 0, false⟩ 0 hSc rfl rfl rfl (by decide) (by decide) h
+  have hst2 : AMap.get (addW1 Ex6.sR).status "W2" = some ⟨none, false⟩ := by
+    show AMap.get (AMap.put Ex6.sR.status "W1" _) "W2" = _
+    rw [AMap.get_put, if_neg (by decide)]; exact hst
+  have hst1 : AMap.get (addW1 Ex6.sR).status "W1" = some ⟨some 0, false⟩ := by
+    show AMap.get (AMap.put Ex6.sR.status "W1" _) "W1" = _
+    rw [AMap.get_put, if_pos rfl]
+  have hrw : readyWallets (addW1 Ex6.sR) ["W1", "W2"] = ["W2"] := by
+    show List.filter _ ["W1", "W2"] = _
+    simp only [List.filter, hst1, hst2]
+    rfl
+  refine ⟨⟨⟨hI.agree.unspent, hI.agree.credits, hI.agree.debits, hI.agree.game, hI.agree.txrecs, hI.agree.blocks⟩,
+    ?_, hI.sync, hI.syncedTo⟩, hrw⟩
+  intro w' hw'
+  have hw'' : (readyWallets (addW1 Ex6.sR) ["W1", "W2"]).contains w' = true := hw'
+  rw [hrw] at hw''
+  have : w' = "W2" := by simpa using hw''
+  subst this
+  show AMap.get (AMap.put Ex6.sR.balance "W1" 0) "W2" = _
+  rw [AMap.get_put, if_neg (by decide)]
+  apply hI.bal "W2"
+  show (List.filter _ ["W2"]).contains "W2" = true
+  simp only [List.filter, hst]
+  rfl
+
+open MW.Lemmas.ImportExact MW.Lemmas.ImportReorg MW.Lemmas.ImportJoin MW.Lemmas.Ledger in
+/-- every hypothesis of `import_exact_reorg_joined` holds on this history, and W1 is done at the end: C01's invariant
+    for BOTH wallets and the chain the node ended on -/
+example : Inv { p := d2Ctx.p, own := Ex6.own6, wallets := ["W1", "W2"],
+                node := (Ex6.evs.foldl (stepR 1 d2Ctx.p Ex6.own6 ["W1", "W2"] "W1") Ex6.sys0).node }
+    (Ex6.evs.foldl (stepR 1 d2Ctx.p Ex6.own6 ["W1", "W2"] "W1") Ex6.sys0).s d2N := by
+  have hnode : (Ex6.evs.foldl (stepR 1 d2Ctx.p Ex6.own6 ["W1", "W2"] "W1") Ex6.sys0).node.chain = d2N := by rfl
+  obtain ⟨hI, hrw⟩ := ex6_invR
+  have hgood : AllGoodR 1 d2Ctx.p Ex6.own6 ["W1", "W2"] "W1" Ex6.sys0 Ex6.evs := by
+    refine ⟨trivial, ⟨d2GoodN, rfl, d2IdInj, by decide, d2KnownS, rfl, rfl, (fun h => nomatch h), by decide⟩,
+      trivial, trivial, trivial, trivial⟩
+  have := (import_exact_reorg_joined 1 (by decide) d2Ctx.p Ex6.own6 ["W1", "W2"] "W1"
+    (by unfold KeysNodup; decide) (by decide) Ex6.sys0 Ex6.evs hI
+    (by
+      show AllReady _ (readyWallets (addW1 Ex6.sR) ["W1", "W2"])
+      rw [hrw]
+      intro a w' ch ha
+      rw [show (Ex6.own6.filter (fun e => e.2.1 ≠ "W1")) = [("X1", ("W2", false))] from rfl, AMap.get_cons] at ha
+      split at ha
+      · cases ha; rfl
+      · cases ha)
+    (by show (readyWallets (addW1 Ex6.sR) ["W1", "W2"]).isEmpty = false; rw [hrw]; rfl)
+    ⟨d2G, rfl, rfl⟩
+    (by show AMap.get (AMap.put Ex6.sR.status "W1" _) "W1" = _; rw [AMap.get_put, if_pos rfl])
+    (by show AMap.get (AMap.put Ex6.sR.balance "W1" 0) "W1" = _; rw [AMap.get_put, if_pos rfl])
+    rfl d2GoodS (by decide) (by decide) hgood).2 (by rfl)
+  rw [hnode] at this
+  exact this.1
+example : (let r := Ex6.evs.foldl (Lemmas.ImportReorg.stepR 1 Lemmas.Ledger.d2Ctx.p Ex6.own6 ["W1", "W2"] "W1") Ex6.sys0
+           (r.v.best, useWallet r.s ["W1", "W2"] "W1", walletBalance r.s "W1" 1, walletBalance r.s "W2" 1,
+            (AMap.get r.s.blocks 2).map (·.2), (AMap.get r.s.blocks 3).map (·.2))) =
+    (⟨3, "B3a"⟩, .ok, some ⟨0, 0, 0, 0⟩, some ⟨690, 690, 0, 0⟩, some ["C3", "T1"], some ["C4", "T2"]) := by rfl
 
 end MW.Props.C07
